@@ -17,7 +17,7 @@ def shape_key(case: dict) -> str:
     vals = [[v["name"], sorted(v["deps"]), v["fld"], sorted(v["disc"]), v["style"]] for v in case["vals"]]
     ext = [[x["name"], x["style"]] for x in case.get("ext", [])]
     return json.dumps([fields, vals, case.get("variant", ""), case.get("split", 0), case.get("wo", ""), bool(case.get("depreq")),
-                       bool(case.get("generic")), ext, case.get("extmode", "arg") if ext else ""])
+                       bool(case.get("generic")), ext, case.get("extmode", "arg") if ext else "", case.get("maxp", 0)])
 
 
 def pn(name: str) -> str:
@@ -36,7 +36,7 @@ def class_source(case: dict) -> str:
     split = case.get("split", 0)
     wo = case.get("wo", "")
     lines = ["from dataclasses import dataclass, field, InitVar",
-             "from apischema import alias, validator, ValidationError, dependent_required",
+             "from apischema import alias, validator, ValidationError, dependent_required, schema",
              "from apischema.metadata import validators", "from typing import Annotated",
              "from apischema.objects import get_alias", "from typing import Generic, TypeVar", "T = TypeVar('T')", "CALLS = []", "OUT = {}", "CTOR = [0]", ""]
 
@@ -107,13 +107,15 @@ def class_source(case: dict) -> str:
         lines += ["@dataclass", "class Base:"] + fields_block()
         for v in case["vals"][split:]:
             lines += validator_block(v)
-        lines += ["", "@dataclass", "class K(Base):"]
+        lines += [""] + ([f"@schema(max_props={case['maxp']})"] if case.get("maxp") else []) + ["@dataclass", "class K(Base):"]
         body = []
         for v in case["vals"][:split]:
             body += validator_block(v)
         lines += body or ["    pass"]
     else:
         # `generic`: the class is Generic[T] and is deserialized through its parametrised form K[int]
+        if case.get("maxp"):
+            lines.append(f"@schema(max_props={case['maxp']})")
         lines += ["@dataclass", "class K(Generic[T]):" if case.get("generic") else "class K:"] + fields_block()
         for v in case["vals"]:
             lines += validator_block(v)
